@@ -750,6 +750,16 @@ def gen_loop_scenario(rng: random.Random) -> dict:
         # an observer outside the loop
         sims.append({"type": "hybrid", "group": list(depth_path[:-1]), "init_ev": None})
         connects.append({"src": 0, "seid": 0, "dst": k, "deid": 0, "sattr": 3, "dattr": 1, "ts": 0, "weak": False, "init": False, "async": False})
+    if rng.random() < 0.3:
+        # a second loop in a SIBLING group (same depth), fed by the first one: its sub-step counter starts from 0 -
+        # the connection between the siblings adds only to the tiers the two groups share
+        sib = list(depth_path[:-1]) + [1]
+        b = len(sims)
+        sims.append({"type": rng.choice(["event-based", "hybrid"]), "group": sib, "init_ev": None})
+        sims.append({"type": rng.choice(["event-based", "hybrid"]), "group": list(sib), "init_ev": None})
+        connects.append({"src": 0, "seid": 0, "dst": b, "deid": 0, "sattr": 3, "dattr": 1, "ts": 0, "weak": False, "init": False, "async": False})
+        connects.append({"src": b, "seid": 0, "dst": b + 1, "deid": 0, "sattr": 3, "dattr": 1, "ts": 0, "weak": False, "init": False, "async": False})
+        connects.append({"src": b + 1, "seid": 0, "dst": b, "deid": 0, "sattr": 3, "dattr": 1, "ts": 0, "weak": True, "init": False, "async": False})
     ml = rng.choice([1, 2, 3, 4])
     sc = {"sims": sims, "connects": connects, "until": rng.randint(2, 4), "max_loop": ml,
           "lazy": rng.random() < 0.5, "cache": rng.random() < 0.5, "beh_seed": rng.randrange(10 ** 9),
